@@ -52,6 +52,9 @@ def _audit_hook(event, args):
     except OSError:
         return
     if full == root or full.startswith(root + os.sep):
+        tmp = root + os.sep + 'tmp'
+        if full == tmp or full.startswith(tmp + os.sep):
+            return       # the run's own TMPDIR: anonymous scratch files
         mode = args[1]
         flags = args[2] if len(args) > 2 else 0
         if mode is None:
